@@ -29,6 +29,7 @@ var drivers = map[string]runner{
 	"C05": pipe.RunC05,
 	"C08": pipe.RunC08,
 	"C17": pipe.RunC17,
+	"C18": pipe.RunC18,
 }
 
 func main() {
